@@ -644,7 +644,24 @@ func (a *asset) getRefSegMeta(nrOrTime int, cfg *ResponseConfig, nowMS int) (ref
 		nr := uint32(nrOrTime)
 		ref, err = findSegMetaFromNr(a, a.refRep, nr, cfg, nowMS)
 	case timeLineTime:
-		videoTime := uint64(nrOrTime * a.refRep.MediaTimescale / SUBS_TIME_TIMESCALE)
+		ts := a.refRep.MediaTimescale
+		videoTime := uint64(nrOrTime * ts / SUBS_TIME_TIMESCALE)
+		// The subtitle time is the rounded video time, so look for the video segment that rounds to it
+		wrapDur := a.LoopDurMS * ts / 1000
+		w0 := int(videoTime) / wrapDur
+	search:
+		for w := w0 - 1; w <= w0+1; w++ {
+			if w < 0 {
+				continue
+			}
+			for _, sg := range a.refRep.Segments {
+				cand := uint64(w*wrapDur) + sg.StartTime
+				if rep2SubsTime(cand, ts) == uint64(nrOrTime) {
+					videoTime = cand
+					break search
+				}
+			}
+		}
 		ref, err = findSegMetaFromTime(a, a.refRep, videoTime, cfg, nowMS)
 	default:
 		return ref, fmt.Errorf("unknown liveMPDtype")
